@@ -157,3 +157,59 @@ Fixpoint mem_run (w : Z) (n : nat) (count : Z) : list Z :=
 (* PusFileSeqCountProvider: max_bit_width = 14, the CCSDS packet sequence count *)
 Definition PUS_SEQ_WIDTH : Z := 14.
 Definition MAX_SEQ_COUNT : Z := 16383.
+
+(* ---------- live provider objects and their public setters / attributes ---------- *)
+
+(* SeqCountProvider object: `count` is a public attribute, `max_bit_width` has a public setter
+   that just stores the width (the limit is recomputed from it on every call). *)
+Record memprov := { m_count : Z; m_width : Z }.
+Definition memprov_new (w : Z) : memprov := {| m_count := mem_init; m_width := w |}.
+Inductive mem_op := MNext | MSetWidth (w : Z) | MSetCount (c : Z).
+Definition memprov_step (p : memprov) (o : mem_op) : option Z * memprov :=
+  match o with
+  | MNext => let '(r, c') := mem_next (m_width p) (m_count p) in
+             (Some r, {| m_count := c'; m_width := m_width p |})
+  | MSetWidth w => (None, {| m_count := m_count p; m_width := w |})
+  | MSetCount c => (None, {| m_count := c; m_width := m_width p |})
+  end.
+
+(* FileSeqCountProvider objects in a directory with two files A and B.  The main provider's
+   state is (max_bit_width, file_name), both settable from outside; a second provider object
+   lives on file B with its own width.  No provider holds anything else (no cached limit, no
+   open file): every call recomputes from (width, file content). *)
+Record world := { w_width : Z; w_on_b : bool; w_a : file; w_b : file; w_width2 : Z }.
+Definition w_cur (s : world) : file := if w_on_b s then w_b s else w_a s.
+Definition w_set_cur (s : world) (f : file) : world :=
+  if w_on_b s then {| w_width := w_width s; w_on_b := true; w_a := w_a s; w_b := f; w_width2 := w_width2 s |}
+  else {| w_width := w_width s; w_on_b := false; w_a := f; w_b := w_b s; w_width2 := w_width2 s |}.
+Definition w_set_width (s : world) (w : Z) : world :=
+  {| w_width := w; w_on_b := w_on_b s; w_a := w_a s; w_b := w_b s; w_width2 := w_width2 s |}.
+
+(* create_new(): open(..., "w") truncates, then "0\n" *)
+Definition file_create_new : file := Some [48; 10].
+
+Inductive world_op :=
+| WNew (w : Z)            (* a new main provider object of width w on the current path *)
+| WNext | WCurrent
+| WDelete                 (* current file removed from outside *)
+| WOverwrite (c : text)   (* current file rewritten from outside *)
+| WSetWidth (w : Z)       (* prov.max_bit_width = w *)
+| WSwitch                 (* prov.file_name = the other path *)
+| WCreateNew              (* prov.create_new() *)
+| WNext2.                 (* next() on the second provider (file B, its own width) *)
+
+Definition world_step (s : world) (o : world_op) : option (res Z) * world :=
+  match o with
+  | WNew w => (None, w_set_cur (w_set_width s w) (file_new (w_cur s)))
+  | WNext => let '(r, f) := file_next (w_width s) (w_cur s) in (Some r, w_set_cur s f)
+  | WCurrent => (Some (file_current (w_width s) (w_cur s)), s)
+  | WDelete => (None, w_set_cur s None)
+  | WOverwrite c => (None, w_set_cur s (Some c))
+  | WSetWidth w => (None, w_set_width s w)
+  | WSwitch => (None, {| w_width := w_width s; w_on_b := negb (w_on_b s); w_a := w_a s; w_b := w_b s;
+                         w_width2 := w_width2 s |})
+  | WCreateNew => (None, w_set_cur s file_create_new)
+  | WNext2 => let '(r, f) := file_next (w_width2 s) (w_b s) in
+              (Some r, {| w_width := w_width s; w_on_b := w_on_b s; w_a := w_a s; w_b := f;
+                          w_width2 := w_width2 s |})
+  end.
